@@ -172,6 +172,11 @@ func genTypesCase(r *Rng) Case {
 				lv["dflt"] = smallVal(r, base)
 			}
 		}
+		if i > 0 && strings.HasPrefix(base, "decimal64:") && r.Chance(25) {
+			// a derived type statement that restates fraction-digits: the digits of a decimal64 are those of
+			// its definition, whatever a derived type says
+			lv["fd"] = 1 + r.Intn(18)
+		}
 		levels = append(levels, lv)
 	}
 	// probes: small values, every written bound ±1, base bounds ±1, lexical oddities
@@ -255,6 +260,9 @@ func typesModule(c Case) string {
 					body.WriteString(" enum " + e + ";")
 				}
 			}
+		}
+		if fd, ok := lv["fd"]; ok {
+			body.WriteString(fmt.Sprintf(" fraction-digits %v;", fd))
 		}
 		if rs, ok := lv["restr"].([]any); ok {
 			var parts []string
